@@ -131,6 +131,7 @@ class Model:
         overrides: Optional[Dict[str, str]] = None,
         reuse: Optional["Model"] = None,
         canonical_locals: bool = True,
+        heal: bool = True,
     ) -> None:
         """overrides: relpath -> source text replacing the file on disk (seeded variants are analysed
         as source text; nothing is written or executed).  reuse: a model of the same root whose parsed
@@ -138,6 +139,9 @@ class Model:
         self.root = root or repo_root()
         self.src_overrides = dict(overrides or {})
         self._reuse = reuse
+        self._heal = heal and canonical_locals
+        # functions analysed in their reviewed form because the current form was proven equivalent (sa/equiv.py)
+        self.heal_log: List[str] = list(reuse.heal_log) if reuse is not None else []
         self.modules: Dict[str, ModuleInfo] = {}
         self.classes: Dict[str, ClassInfo] = {}
         self.funcs: Dict[str, FuncInfo] = {}
@@ -176,15 +180,24 @@ class Model:
                     modname = modname[: -len(".__init__")]
                 if rel in self.src_overrides:
                     src = self.src_overrides[rel]
-                    tree = ast.parse(src, filename=path)
+                    tree = self._healed(rel, src, ast.parse(src, filename=path))
                 elif self._reuse is not None and modname in self._reuse.modules and rel not in self._reuse.src_overrides:
                     old = self._reuse.modules[modname]
                     src, tree = old.src, old.tree
                 else:
                     with open(path, "r", encoding="utf-8") as f:
                         src = f.read()
-                    tree = ast.parse(src, filename=path)
+                    tree = self._healed(rel, src, ast.parse(src, filename=path))
                 self.modules[modname] = ModuleInfo(modname, path, rel, src, tree)
+
+    def _healed(self, rel: str, src: str, tree: ast.Module) -> ast.Module:
+        if not self._heal:
+            return tree
+        from .equiv import heal_module
+
+        new, log = heal_module(rel, src, tree)
+        self.heal_log.extend(log)
+        return new
 
     def _index_module(self, m: ModuleInfo) -> None:
         for st in self._toplevel_stmts(m.tree.body):
